@@ -2268,6 +2268,41 @@ theorem updBK_ent_spec (m : Mdl) (hm : m.entropy = true) (t : RTree) (p : Path) 
   refine ⟨by simp [RTree.updBK, upd, updN], by simp [RTree.updBK, upd, updN, hm], by simp [RTree.updBK, upd, hm], fun x hx => ?_⟩
   simp [RTree.updBK, upd, updN, hm, hx]
 
+/-! #### rPOMCP: the max-mode bookkeeping (`maxBeliefNodeUpdate`) keeps `actionsV` the maximum action value -/
+
+/-- **maxBeliefNodeUpdate / the `N == k_` switch**: once a node has been visited `k_` times its `actionsV` is the largest
+    action value and `bestAction` an action attaining it — also when the updated action's value went *down* (the
+    `else if (a == bestAction)` recomputation).  `t` is the tree after the action update of `a`; the hypothesis is the same
+    statement before that update (all other action values unchanged). -/
+theorem rbook_max_spec (k : Nat) (t : RTree) (p : Path) (a : Nat) (imm : Rat) (hk : k ≤ t.nN p) (hA : 0 < t.nA p)
+    (hprev : k < t.nN p → (∀ c, c < t.nA p → c ≠ a → t.aV p c ≤ t.actV p) ∧
+                          (t.best p ≠ a → t.actV p = t.aV p (t.best p) ∧ t.best p < t.nA p)) (ha : a < t.nA p) :
+    (rbook k t p a imm).1 = t.aV p (rbook k t p a imm).2.1 ∧ (rbook k t p a imm).2.1 < t.nA p ∧
+    ∀ c, c < t.nA p → t.aV p c ≤ (rbook k t p a imm).1 := by
+  unfold rbook
+  simp only [hk, if_true]
+  split
+  · exact ⟨rfl, argmaxV_lt _ _ hA, fun c hc => argmaxV_max _ _ c hc⟩
+  · rename_i hne
+    have hlt : k < t.nN p := by omega
+    obtain ⟨h1, h2⟩ := hprev hlt
+    split
+    · rename_i hge
+      refine ⟨rfl, ha, fun c hc => ?_⟩
+      by_cases hca : c = a
+      · subst hca; exact le_refl _
+      · exact le_trans (h1 c hc hca) hge
+    · rename_i hlt2
+      split
+      · exact ⟨rfl, argmaxV_lt _ _ hA, fun c hc => argmaxV_max _ _ c hc⟩
+      · rename_i hab
+        have hba : t.best p ≠ a := fun e => hab e.symm
+        obtain ⟨e1, e2⟩ := h2 hba
+        refine ⟨e1, e2, fun c hc => ?_⟩
+        by_cases hca : c = a
+        · subst hca; exact le_of_lt (not_le.mp hlt2)
+        · exact h1 c hc hca
+
 /-! #### rPOMCP entropy: the running knowledge measure is the sum of the stored `p log p` terms -/
 
 theorem sumQ_map_updN_not_mem (f : Nat → Rat) (s : Nat) (v : Rat) : ∀ l : List Nat, s ∉ l →
